@@ -98,6 +98,12 @@ pub fn run_case(c: &Case) -> CaseResult {
 }
 
 pub fn run_case_with(c: &Case, avoid_credit_overflow: bool) -> CaseResult {
+    run_case_for(c, avoid_credit_overflow, "C07")
+}
+
+/// `prop` prefixes the signatures; for C08 the substream events of the rogue's streams are judged as well: every one of them
+/// lies between the protocol's established and closed events for the peer.
+pub fn run_case_for(c: &Case, avoid_credit_overflow: bool, prop: &'static str) -> CaseResult {
     let log: Log = Arc::new(parking_lot::Mutex::new(Vec::new()));
     let case_id = new_case_id();
     let setup = |seed: u64| NodeSetup {
@@ -110,14 +116,14 @@ pub fn run_case_with(c: &Case, avoid_credit_overflow: bool) -> CaseResult {
         substream_open_timeout: Some(Duration::from_millis(1500)),
         ..Default::default()
     };
-    let victim = Node::spawn(0, setup(c.seed % 300 + 121_000), log.clone()).map_err(|e| CaseFail::new("C07/harness-node-start-failed", e))?;
+    let victim = Node::spawn(0, setup(c.seed % 300 + 121_000), log.clone()).map_err(|e| CaseFail::new(format!("{prop}/harness-node-start-failed"), e))?;
     let pv = victim.peer;
     let addr_v = full_address(&victim);
-    let port = addr_v.iter().find_map(|p| if let multiaddr::Protocol::Tcp(port) = p { Some(port) } else { None }).ok_or_else(|| CaseFail::new("C07/harness-no-port", "no tcp port"))?;
-    let mut s = RogueSession::connect(([127, 0, 0, 1], port).into(), c.seed % 1000 + 122_000).map_err(|e| CaseFail::new("C07/harness-rogue-could-not-connect", e))?;
+    let port = addr_v.iter().find_map(|p| if let multiaddr::Protocol::Tcp(port) = p { Some(port) } else { None }).ok_or_else(|| CaseFail::new(format!("{prop}/harness-no-port"), "no tcp port"))?;
+    let mut s = RogueSession::connect(([127, 0, 0, 1], port).into(), c.seed % 1000 + 122_000).map_err(|e| CaseFail::new(format!("{prop}/harness-rogue-could-not-connect"), e))?;
     let pr = s.peer;
     if !wait_until(&log, Duration::from_millis(3000), |l| connected(l, 0, &pr)) {
-        return Err(CaseFail::new("C07/harness-calibration-failed", "the node did not report the rogue's (valid) connection as established within 3 s"));
+        return Err(CaseFail::new(format!("{prop}/harness-calibration-failed"), "the node did not report the rogue's (valid) connection as established within 3 s"));
     }
     // ---- the rogue's frames ----
     let mut opened: Vec<u32> = Vec::new();
@@ -241,12 +247,12 @@ pub fn run_case_with(c: &Case, avoid_credit_overflow: bool) -> CaseResult {
     if !closed {
         for p in case_panics(case_id) {
             if p.thread.ends_with("-node0") {
-                fail!(format!("C07/panic@{}", p.location), "the node panicked: {} (frames {:?}); the connection was never reported closed", p.message, c.frames);
+                fail!(format!("{prop}/panic@{}", p.location), "the node panicked: {} (frames {:?}); the connection was never reported closed", p.message, c.frames);
             }
         }
         let l = log.lock();
         fail!(
-            "C07/connection-never-reported-closed",
+            format!("{prop}/connection-never-reported-closed"),
             "the rogue's socket was dropped after {:?}; 3 s later the node's user has not been told that the connection closed; events about it: {:?}",
             c.frames,
             l.iter().filter(|o| o.node == 0).filter_map(|o| about(&o.kind, &pr)).collect::<Vec<_>>()
@@ -261,26 +267,42 @@ pub fn run_case_with(c: &Case, avoid_credit_overflow: bool) -> CaseResult {
         let count = |f: &dyn Fn(&ObsKind) -> bool| l.iter().filter(|o| o.node == 0 && f(&o.kind)).count();
         let est = count(&|k| matches!(k, ObsKind::ConnEstablished { peer, .. } if *peer == pr));
         let cls = count(&|k| matches!(k, ObsKind::ConnClosed { peer } if *peer == pr));
-        ensure!(est == 1 && cls == 1, "C07/user-told-other-than-once", "one connection: the user saw {est} established and {cls} closed events");
+        ensure!(est == 1 && cls == 1, format!("{prop}/user-told-other-than-once"), "one connection: the user saw {est} established and {cls} closed events");
         for k in 0..2usize {
             let e = count(&|x| matches!(x, ObsKind::ProbeEstablished { probe, peer } if *probe == k && *peer == pr));
             let cl = count(&|x| matches!(x, ObsKind::ProbeClosed { probe, peer } if *probe == k && *peer == pr));
             ensure!(
                 e == 1 && cl == 1,
-                "C07/protocol-told-other-than-once",
+                format!("{prop}/protocol-told-other-than-once"),
                 "one connection: protocol {k} saw {e} established and {cl} closed events (frames {:?}); events: {:?}",
                 c.frames,
                 l.iter().filter(|o| o.node == 0).filter_map(|o| about(&o.kind, &pr)).collect::<Vec<_>>()
             );
         }
     }
+    if prop == "C08" {
+        let l = log.lock();
+        for k in 0..2usize {
+            let mut up = false;
+            for o in l.iter().filter(|o| o.node == 0) {
+                match &o.kind {
+                    ObsKind::ProbeEstablished { probe, peer } if *probe == k && *peer == pr => up = true,
+                    ObsKind::ProbeClosed { probe, peer } if *probe == k && *peer == pr => up = false,
+                    ObsKind::ProbeSubstream { probe, peer, .. } if *probe == k && *peer == pr => {
+                        ensure!(up, "C08/substream-event-outside-the-connection", "protocol {k} got a substream of the rogue while it does not count as connected (frames {:?})", c.frames);
+                    }
+                    _ => {}
+                }
+            }
+        }
+    }
     for p in case_panics(case_id) {
         if p.thread.ends_with("-node0") {
-            fail!(format!("C07/panic@{}", p.location), "the node panicked: {} (frames {:?})", p.message, c.frames);
+            fail!(format!("{prop}/panic@{}", p.location), "the node panicked: {} (frames {:?})", p.message, c.frames);
         }
     }
     // ---- an honest node is still served ----
-    let honest = Node::spawn(1, setup(c.seed % 300 + 123_000), log.clone()).map_err(|e| CaseFail::new("C07/harness-node-start-failed", e))?;
+    let honest = Node::spawn(1, setup(c.seed % 300 + 123_000), log.clone()).map_err(|e| CaseFail::new(format!("{prop}/harness-node-start-failed"), e))?;
     let ph = honest.peer;
     let mut served = false;
     for attempt in 0..3u64 {
@@ -299,9 +321,9 @@ pub fn run_case_with(c: &Case, avoid_credit_overflow: bool) -> CaseResult {
     }
     if !served {
         if !crate::f4::control_pair_works(case_id, c.seed) {
-            return Err(CaseFail::new("C07/harness-control-pair-failed", "two fresh honest nodes could not connect either"));
+            return Err(CaseFail::new(format!("{prop}/harness-control-pair-failed"), "two fresh honest nodes could not connect either"));
         }
-        fail!("C07/stopped-serving-after-rogue-connection", "after the rogue's connection an honest node could not connect and get a response (3 attempts); frames {:?}", c.frames);
+        fail!(format!("{prop}/stopped-serving-after-rogue-connection"), "after the rogue's connection an honest node could not connect and get a response (3 attempts); frames {:?}", c.frames);
     }
     let reached = log.lock().iter().any(|o| o.node == 0 && matches!(&o.kind, ObsKind::ProbeSubstream { peer, inbound: true, .. } if *peer == pr));
     let mut ok = CaseOk::trivial();
